@@ -643,6 +643,55 @@ pub fn compact_input(rng: &mut Rng, thorough: bool) -> Vec<u64> {
     cells
 }
 
+/// overlapping inputs built around complete sibling groups: a cell together with all its children
+/// (so that a merge re-creates a cell that is already present), complete groups of grandchildren,
+/// and extra descendants that sort between the cell and the group
+pub fn overlap_input(rng: &mut Rng) -> Vec<u64> {
+    let mut v: Vec<u64> = Vec::new();
+    let root = match rng.below(5) {
+        0 => 0,
+        1 | 2 => valid_cell(rng, 0),
+        3 => valid_cell(rng, 1),
+        _ => {
+            let r = rng.range_i(2, 26) as i32;
+            valid_cell(rng, r)
+        }
+    };
+    let children = a5::cell_to_children(root, None).unwrap();
+    if rng.chance(3, 4) {
+        v.push(root);
+    }
+    for &c in &children {
+        match rng.below(6) {
+            0 => {
+                // replace the child by all of its own children (a second-level complete group)
+                v.extend(a5::cell_to_children(c, None).unwrap());
+                if rng.chance(1, 2) {
+                    v.push(c);
+                }
+            }
+            _ => v.push(c),
+        }
+    }
+    // descendants of random children, several levels down (they sort inside the group's key range)
+    for _ in 0..rng.below(4) {
+        let c = children[rng.below(children.len() as u64) as usize];
+        let c = if rng.chance(1, 2) { children[0] } else { c };
+        let r = a5::get_resolution(c);
+        let d = (r + 1 + rng.below(3) as i32).min(29);
+        let ds = a5::cell_to_children(c, Some(d)).unwrap();
+        let pick = if rng.chance(1, 2) { 0 } else { rng.below(ds.len() as u64) as usize };
+        v.push(ds[pick]);
+    }
+    // unrelated cells
+    for _ in 0..rng.below(4) {
+        let r = random_res(rng);
+        v.push(valid_cell(rng, r));
+    }
+    rng.shuffle(&mut v);
+    v
+}
+
 pub fn cases_c08(rng: &mut Rng, thorough: bool) -> Vec<Case> {
     let mut v = Vec::new();
     let n = if thorough { 1500 } else { 250 };
@@ -667,6 +716,9 @@ pub fn cases_c08(rng: &mut Rng, thorough: bool) -> Vec<Case> {
     v.push(Case::compact(x));
     for _ in 0..n {
         v.push(Case::compact(compact_input(rng, thorough)));
+    }
+    for _ in 0..n {
+        v.push(Case::compact(overlap_input(rng)));
     }
     // all permutations of small sets
     for _ in 0..(if thorough { 30 } else { 6 }) {
